@@ -384,10 +384,12 @@ func init() {
 		Units: clientUnits,
 		Runs: []Run{
 			{Pkg: "fasthttp", Func: "vhC04Sequential", Quick: map[string]int{"calls": 2}, Thorough: map[string]int{"calls": 3}, PathCap: 1500000},
+			{Pkg: "fasthttp", Func: "vhC04Pipeline", Quick: map[string]int{"calls": 3}, Thorough: map[string]int{"calls": 4}, NoNative: true},
 		},
 		Assume: []string{clientAssume,
-			"sequential calls only (2 quick / 3 thorough GETs through one HostClient, default MaxConns): each connection answers the j-th request written on it with the j-th response of its script; response kinds {Content-Length keep-alive, Content-Length + Connection: close, chunked, chunked whose single chunk continues with bytes that spell a complete response}, each carrying two arbitrary tag bytes; delivered in one read or split after the first two body bytes; StreamResponseBody on/off with the caller reading none / 2 bytes / all of the stream before closing it; request Connection: close on/off",
-			"concurrent calls, PipelineClient, timeouts racing the response, and servers that close mid-response are outside this check",
+			"PipelineClient (vhC04Pipeline): `calls` concurrent DoTimeout(1 s) calls through one PipelineClient (MaxConns 1) on the engine's scheduler with virtual time, against a reactive in-memory server that answers every complete request with that request's path; the first connection may be closed by the server after 1 or 2 requests, of which a prefix was answered; every successful call must carry its own path; cooperative schedules only, choices only, not re-run natively",
+			"sequential calls (vhC04Sequential) (2 quick / 3 thorough GETs through one HostClient, default MaxConns): each connection answers the j-th request written on it with the j-th response of its script; response kinds {Content-Length keep-alive, Content-Length + Connection: close, chunked, chunked whose single chunk continues with bytes that spell a complete response}, each carrying two arbitrary tag bytes; delivered in one read or split after the first two body bytes; StreamResponseBody on/off with the caller reading none / 2 bytes / all of the stream before closing it; request Connection: close on/off",
+			"concurrent HostClient calls, timeouts racing the response, and servers that close mid-response are outside this check",
 		},
 	})
 }
